@@ -303,6 +303,12 @@ func opDepthQueries(g *G) (interface{}, []uint64, int, interface{}) {
 		nctrl = 1
 		fam += "+modular"
 	}
+	if nctrl == 0 && g.chance(0.15) {
+		// built by the modular constructor with an EMPTY (non-nil) control list - what Genome.Genesis makes of a genome
+		// whose modules are all disabled: still a non-modular network in every respect
+		net = network.NewModularNetwork(network.VerifNetInputs(net), net.Outputs, network.VerifNetAllNodes(net), []*network.NNode{}, sp.id)
+		fam += "+emptyCtrl"
+	}
 	in := &depthQueriesIn{Family: fam, Net: dumpNet(net), NCtrl: nctrl}
 	out := &depthQueriesOut{}
 	// the first query on the fresh instance: uncapped
